@@ -337,3 +337,27 @@ M("C02", "V", "elicitation request built with id=None", ELICIT, "            \"i
 M("C02", "B", "dict keys reordered", HTTP, "                                \"jsonrpc\": \"2.0\",\n                                \"id\": message_id,\n                                \"error\": {\"code\": -32700, \"message\": \"Parse error\"},\n", "                                \"id\": message_id,\n                                \"jsonrpc\": \"2.0\",\n                                \"error\": {\"message\": \"Parse error\", \"code\": -32700},\n")
 M("C02", "B", "named code constant", HTTP, "                                \"error\": {\"code\": -32700, \"message\": \"Parse error\"},\n", "                                \"error\": {\"code\": PARSE_ERROR_CODE, \"message\": \"Parse error\"},\n",
   more=[(HTTP, "logger = logging.getLogger(__name__)\n", "logger = logging.getLogger(__name__)\nPARSE_ERROR_CODE = -32700\n")])
+
+# ------------------------------------------------------------------------------ C11
+M("C11", "V", "≥400 synthesis removed", HTTP, "                        await self._route_response(error_response)\n                        return\n\n                    # Extract session ID", "                        return\n\n                    # Extract session ID", "R1")
+M("C11", "V", "synthesise twice on the exception arm", HTTP, "                    error_response = {\n                        \"jsonrpc\": \"2.0\",\n                        \"id\": message_id,\n                        \"error\": {\"code\": -32603, \"message\": str(e)},\n                    }\n                    await self._route_response(error_response)\n\n        except Exception as e:\n            logger.error(f\"Error in HTTP message sending: {e}\")",
+  "                    error_response = {\n                        \"jsonrpc\": \"2.0\",\n                        \"id\": message_id,\n                        \"error\": {\"code\": -32603, \"message\": str(e)},\n                    }\n                    await self._route_response(error_response)\n                    await self._route_response(error_response)\n\n        except Exception as e:\n            logger.error(f\"Error in HTTP message sending: {e}\")", "R1")
+M("C11", "V", "timeout arm only logs", HTTP, "                    error_response = {\n                        \"jsonrpc\": \"2.0\",\n                        \"id\": message_id,\n                        \"error\": {\"code\": -32000, \"message\": \"Request timeout\"},\n                    }\n                    await self._route_response(error_response)\n", "                    pass\n", "R1")
+M("C11", "V", "202 return for requests too (pre-fix code)", HTTP, "                            if response.status_code == 202 and not message_id:\n", "                            if response.status_code == 202:\n", "R1")
+M("C11", "V", "synthesised error carries a different id", HTTP, "                            \"jsonrpc\": \"2.0\",\n                            \"id\": message_id,\n                            \"error\": {\n                                \"code\": -32603,\n                                \"message\": f\"HTTP {response.status_code}: {error_text}\",", "                            \"jsonrpc\": \"2.0\",\n                            \"id\": self._session_id,\n                            \"error\": {\n                                \"code\": -32603,\n                                \"message\": f\"HTTP {response.status_code}: {error_text}\",", "R1")
+M("C11", "V", "data: requires the space again (pre-fix code)", HTTP, "                elif line.startswith(\"data:\"):\n                    data = line[5:]  # Keep formatting\n                    if data.startswith(\" \"):\n                        data = data[1:]\n", "                elif line.startswith(\"data: \"):\n                    data = line[6:]  # Keep formatting\n", "R2")
+M("C11", "V", "optional space not stripped", HTTP, "                    data = line[5:]  # Keep formatting\n                    if data.startswith(\" \"):\n                        data = data[1:]\n                    event_data.append(data)\n\n            # Process any remaining event\n            if event_data:\n                await self._process_sse_event(\n                    current_event or \"message\", event_data, message_id\n                )\n\n        except Exception as e:\n            logger.error(f\"Error processing SSE text: {e}\")",
+  "                    data = line[5:]  # Keep formatting\n                    event_data.append(data)\n\n            # Process any remaining event\n            if event_data:\n                await self._process_sse_event(\n                    current_event or \"message\", event_data, message_id\n                )\n\n        except Exception as e:\n            logger.error(f\"Error processing SSE text: {e}\")", "R2")
+M("C11", "V", "comments parsed as data", HTTP, "                if line.startswith(\"event:\"):\n                    current_event = line[6:].strip()\n", "                if line.startswith(\":\"):\n                    event_data.append(line[1:])\n                elif line.startswith(\"event:\"):\n                    current_event = line[6:].strip()\n", "R2")
+M("C11", "V", "dispatch requires an event field again (pre-fix code)", HTTP, "                if not line:\n                    # Empty line marks end of event\n                    if event_data:\n", "                if not line:\n                    # Empty line marks end of event\n                    if current_event and event_data:\n", "R2")
+M("C11", "V", "array bodies not split (pre-fix code)", HTTP, "        if isinstance(response_data, list):\n            for item in response_data:\n                await self._route_response(item)\n            return\n", "", "R3")
+M("C11", "V", "session id cached at construction", HTTP, "            if self._session_id:\n                headers[\"Mcp-Session-Id\"] = self._session_id\n", "            if self._session_id:\n                headers[\"Mcp-Session-Id\"] = self.parameters.session_id\n", "R5")
+M("C11", "V", "session id updated after dispatch", HTTP, "                    # Extract session ID from response if provided\n                    if \"mcp-session-id\" in response.headers:\n                        self._session_id = response.headers[\"mcp-session-id\"]\n                        logger.debug(f\"Updated session ID: {self._session_id}\")\n\n                    content_type = response.headers.get(\"content-type\", \"\")\n\n                    if \"application/json\" in content_type:\n                        # Immediate JSON response\n                        try:\n                            response_data = response.json()\n                            logger.debug(\n                                f\"Got immediate JSON response for {message_id}\"\n                            )\n                            await self._route_response(response_data)\n",
+  "                    content_type = response.headers.get(\"content-type\", \"\")\n\n                    if \"application/json\" in content_type:\n                        # Immediate JSON response\n                        try:\n                            response_data = response.json()\n                            logger.debug(\n                                f\"Got immediate JSON response for {message_id}\"\n                            )\n                            await self._route_response(response_data)\n                            if \"mcp-session-id\" in response.headers:\n                                self._session_id = response.headers[\"mcp-session-id\"]\n", "R5")
+M("C11", "V", "sender loop ends on the first error", HTTP, "    async def _send_message_via_http(self, message) -> None:\n        \"\"\"Send a message via HTTP POST with streamable response handling.\"\"\"\n        # Use semaphore to limit concurrent requests\n        async with self._request_semaphore:\n            await self._send_message_internal(message)\n",
+  "    async def _send_message_via_http(self, message) -> None:\n        \"\"\"Send a message via HTTP POST with streamable response handling.\"\"\"\n        # Use semaphore to limit concurrent requests\n        async with self._request_semaphore:\n            await self._send_message_internal(message)\n            if not self._connected.is_set():\n                raise RuntimeError(\"transport closed\")\n", "R4")
+M("C11", "V", "router validation outside its try", HTTP, "        try:\n            from chuk_mcp.protocol.messages.json_rpc_message import JSONRPCMessage\n\n            # Create JSON-RPC message\n            message = JSONRPCMessage.model_validate(response_data)  # type: ignore[attr-defined]\n",
+  "        from chuk_mcp.protocol.messages.json_rpc_message import JSONRPCMessage\n\n        message = JSONRPCMessage.model_validate(response_data)  # type: ignore[attr-defined]\n        try:\n", "R1")
+M("C11", "B", "logging changes", HTTP, "                    logger.debug(f\"HTTP response status: {response.status_code}\")\n", "                    logger.info(f\"HTTP response status: {response.status_code}\")\n")
+M("C11", "B", "data prefix via removeprefix", HTTP, "                    data = line[5:]  # Keep formatting\n                    if data.startswith(\" \"):\n                        data = data[1:]\n                    event_data.append(data)\n\n            # Process any remaining event\n            if event_data:\n                await self._process_sse_event(\n                    current_event or \"message\", event_data, message_id\n                )\n\n        except Exception as e:\n            logger.error(f\"Error processing SSE text: {e}\")",
+  "                    data = line[5:].removeprefix(\" \")\n                    event_data.append(data)\n\n            # Process any remaining event\n            if event_data:\n                await self._process_sse_event(\n                    current_event or \"message\", event_data, message_id\n                )\n\n        except Exception as e:\n            logger.error(f\"Error processing SSE text: {e}\")")
